@@ -178,9 +178,19 @@ class Ctx:
         return v
 
     def model(self):
+        if self.solver is None:
+            return None
         if self.check() == 'sat':
             return self.solver.model()
         return None
+
+    def release(self):
+        """Drop the solver, the path condition and the memo table of a finished path nobody will ask a model of
+        (counters, flags, notes and data stay).  Thousands of retained solvers are what a long exploration dies of."""
+        self.solver = None
+        self.pc = []
+        self.memo = {}
+        self.uninit_ctrl = [True] * len(self.uninit_ctrl)
 
 
 _STACK = []
@@ -208,8 +218,19 @@ class active:
         _STACK.pop()
 
 
-def explore(fn, max_paths=100000, timeout_ms=10000, time_budget=None):
-    """Run fn(ctx) once per feasible path.  Returns (results, exhaustive, stats)."""
+def _default_keep(ctx, r):
+    """Keep the solver of a path whose result carries failed obligations (a model will be asked for)."""
+    items = r if isinstance(r, (tuple, list)) else (r,)
+    for x in items:
+        if getattr(x, 'failed', None):
+            return True
+    return not any(hasattr(x, 'failed') for x in items)      # results that are no obligation sets: keep (caller's business)
+
+
+def explore(fn, max_paths=100000, timeout_ms=10000, time_budget=None, keep=_default_keep):
+    """Run fn(ctx) once per feasible path.  Returns (results, exhaustive, stats).  keep(ctx, r) says whether the path's
+    solver state is still needed once the path is finished; by default it is kept only when the result carries failed
+    obligations (or is not an obligation set at all)."""
     work = [[]]
     results = []
     stats = {'paths': 0, 'forks': 0, 'queries': 0, 'solver_s': 0.0, 'weak': 0, 'flagged': 0,
@@ -223,6 +244,8 @@ def explore(fn, max_paths=100000, timeout_ms=10000, time_budget=None):
         with active(ctx):
             r = fn(ctx)
         results.append((ctx, r))
+        if keep is not None and not keep(ctx, r):
+            ctx.release()
         work.extend(ctx.alts)
         stats['paths'] += 1
         stats['forks'] += ctx.forks
